@@ -6,7 +6,7 @@ use crate::grammar::*;
 
 pub const ID: &str = "C02";
 
-pub const RULE: &str = "cases = (grammar, input). (a) configuration grid, enumerated completely: at_least in 0..4 x at_most in {none,0..4} (non-empty intervals) x allow_leading x allow_trailing x consumer in {collect Vec, collect String, count, collect (), bare Parser<()>, collect_exactly [_;N], enumerate, foldl, foldr} for 3 fixed (item, separator) pairs (incl. an item that can start like the separator, and a two-token separator) plus 3 items under plain repeated() with and without configure(), each followed by a remainder-capturing parser, on every string over {a , b} up to length L (L=5 quick, 7 thorough); (b) the empty-interval sub-domain at_least > at_most, kept apart; (c) random tier: repetitions whose item / separator are generated C01-class grammars (items consuming), bounds 0..4, all consumers, configure() at random, with derived inputs having k-1, k, k+1 items around each bound and leading / trailing / doubled separators. Compared with the reference: accept, collected value (order via non-commutative folds, enumerate indices), unconsumed remainder. Admissible variants V-lead / V-trail-cap (DESIGN.md 3.1) are both accepted. NON-TRIVIAL = the item count is within 1 of a bound when the repetition stops, or a separator was present immediately before a failing item (leading / trailing / dangling separator); distinct = distinct (sub-check, grammar, input).";
+pub const RULE: &str = "cases = (grammar, input). (a) configuration grid, enumerated completely: at_least in 0..4 x at_most in {none,0..4} (non-empty intervals) x allow_leading x allow_trailing x consumer in {collect Vec, collect String, count, collect (), bare Parser<()>, collect_exactly [_;N], enumerate, foldl, foldr} for 3 fixed (item, separator) pairs (incl. an item that can start like the separator, and a two-token separator) plus 3 items under plain repeated() with and without configure(), each followed by a remainder-capturing parser, on every string over {a , b} up to length L (L=5 quick, 7 thorough); (b) the empty-interval sub-domain at_least > at_most, kept apart; (c) random tier: repetitions whose item / separator are generated C01-class grammars (items consuming), bounds 0..4, all consumers, configure() at random, with derived inputs having k-1, k, k+1 items around each bound and leading / trailing / doubled separators. Compared with the reference: accept, collected value (order via non-commutative folds, enumerate indices), unconsumed remainder. Admissible variants V-lead / V-trail-cap (DESIGN.md 3.1) are both accepted. foldl_with / foldr_with are consumers of the grid and of the random class; exactly(n) is used wherever both bounds coincide; a statically typed family collects into every Container the library implements (Vec, String, usize, (), LinkedList, VecDeque, HashSet, BTreeSet, HashMap, BTreeMap, Box / Cell / RefCell of a container, via repeated, separated_by and enumerate) on every string over {a b c , x} up to length 5 / 6 against the item sequence the statement gives. NON-TRIVIAL = the item count is within 1 of a bound when the repetition stops, or a separator was present immediately before a failing item (leading / trailing / dangling separator); distinct = distinct (sub-check, grammar, input).";
 
 pub const ASSUMPTIONS: &[&str] = &[
     "the reference repetition loop in harness/src/reference.rs implements the statement literally (greedy, possessive, succeed iff lo <= count <= hi, separators only between accepted items or where the flags permit)",
@@ -57,6 +57,9 @@ fn check_inner(sub: &str, g: &G, toks: &[char], l: &mut Local) -> CaseRes {
 }
 
 pub fn check_case(case: &Case, l: &mut Local) -> Result<(), Fail> {
+    if case.sub == "containers-static" {
+        return containers_case(&case.input, l).map_err(|(_, f)| f);
+    }
     check_inner(&case.sub, &case.g, &case.toks(), l).map_err(|(_, f)| f)
 }
 
@@ -95,6 +98,10 @@ pub fn grid(empty: bool) -> Vec<G> {
                     if sep.is_some() { vec![(false, false), (true, false), (false, true), (true, true)] } else { vec![(false, false)] };
                 for (leading, trailing) in flagsets {
                     let mut ss = sinks();
+                    if sep.is_none() {
+                        ss.push(Sink::FoldlWith(b(G::Just("b".into()))));
+                        ss.push(Sink::FoldrWith(b(G::Just("b".into()))));
+                    }
                     // collect_exactly with N = at_most (or at_least when unbounded)
                     if let Some(h) = hi {
                         if h <= 4 && lo <= h {
@@ -155,6 +162,83 @@ pub fn grid(empty: bool) -> Vec<G> {
     out
 }
 
+
+// ---------------------------------------------------------------------------------------------
+// "collect ... see exactly that item sequence": every Container the library implements, against the Vec collection
+// (statically typed; the builder collects into Vec / String / usize / () / arrays only)
+
+fn containers_case(s: &str, l: &mut Local) -> CaseRes {
+    use chumsky::prelude::*;
+    use std::collections::*;
+    type E<'a> = extra::Err<Rich<'a, char>>;
+    let toks: Vec<char> = s.chars().collect();
+    let case = |name: &str| {
+        let mut c = Case::new(ID, "containers-static", &G::Empty, &toks);
+        c.extra = serde_json::json!({ "container": name });
+        c
+    };
+    let item = || one_of::<_, &str, E>("abc");
+    let rest = || any::<&str, E>().repeated();
+    // the item sequence by the statement: the longest run of items, at most 3
+    let run: Vec<char> = toks.iter().copied().take_while(|c| "abc".contains(*c)).take(3).collect();
+    let seprun: Vec<char> = {
+        // a (',' a)* -- a separator only between two accepted items
+        let mut v = vec![];
+        let mut i = 0;
+        while i < toks.len() && "abc".contains(toks[i]) {
+            v.push(toks[i]);
+            if toks.get(i + 1) == Some(&',') && toks.get(i + 2).map(|c| "abc".contains(*c)) == Some(true) {
+                i += 2;
+            } else {
+                break;
+            }
+        }
+        v
+    };
+    macro_rules! cmp {
+        ($name:expr, $p:expr, $want:expr) => {{
+            let name: &str = $name;
+            let p = $p.then_ignore(rest());
+            let r = crate::run::quietly(|| (p.parse(s).into_output(), p.check(s).has_output()));
+            l.evals += 2;
+            let Ok((got, chk)) = r else {
+                return Err((case(name), Fail::new("C02/panic", format!("collect into {} panicked on {:?}", name, s))));
+            };
+            let want = Some($want);
+            if got != want || !chk {
+                return Err((case(name), Fail::new("C02/container", format!("collect::<{}>() on {:?}: {:?} but the items are {:?} (check accepts = {})", name, s, got, want, chk))));
+            }
+            l.bump("container_collections_checked");
+        }};
+    }
+    let rep = || item().repeated().at_most(3);
+    cmp!("Vec<char>", rep().collect::<Vec<char>>(), run.clone());
+    cmp!("String", rep().collect::<String>(), run.iter().collect::<String>());
+    cmp!("usize", rep().collect::<usize>(), run.len());
+    cmp!("()", rep().collect::<()>(), ());
+    cmp!("LinkedList<char>", rep().collect::<LinkedList<char>>(), run.iter().copied().collect::<LinkedList<char>>());
+    cmp!("VecDeque<char>", rep().collect::<VecDeque<char>>(), run.iter().copied().collect::<VecDeque<char>>());
+    cmp!("HashSet<char>", rep().collect::<HashSet<char>>(), run.iter().copied().collect::<HashSet<char>>());
+    cmp!("BTreeSet<char>", rep().collect::<BTreeSet<char>>(), run.iter().copied().collect::<BTreeSet<char>>());
+    cmp!("Box<Vec<char>>", rep().collect::<Box<Vec<char>>>(), Box::new(run.clone()));
+    cmp!("RefCell<Vec<char>>", rep().collect::<std::cell::RefCell<Vec<char>>>().map(|c| c.into_inner()), run.clone());
+    cmp!("Cell<usize>", rep().collect::<std::cell::Cell<usize>>().map(|c| c.into_inner()), run.len());
+    // maps keep the LAST value of a key: items in input order
+    let pairs: Vec<(char, usize)> = run.iter().copied().enumerate().map(|(i, c)| (c, i)).collect();
+    let prep = || item().map_with(|c, e| (c, e.span().start)).repeated().at_most(3);
+    cmp!("HashMap<char, usize>", prep().collect::<HashMap<char, usize>>(), pairs.iter().copied().collect::<HashMap<char, usize>>());
+    cmp!("BTreeMap<char, usize>", prep().collect::<BTreeMap<char, usize>>(), pairs.iter().copied().collect::<BTreeMap<char, usize>>());
+    cmp!("Vec<(usize, char)> via enumerate", rep().enumerate().collect::<Vec<(usize, char)>>(), run.iter().copied().enumerate().collect::<Vec<_>>());
+    // the same through separated_by
+    let srep = || item().separated_by(just(','));
+    cmp!("separated_by: Vec<char>", srep().collect::<Vec<char>>(), seprun.clone());
+    cmp!("separated_by: VecDeque<char>", srep().collect::<VecDeque<char>>(), seprun.iter().copied().collect::<VecDeque<char>>());
+    cmp!("separated_by: usize", srep().count(), seprun.len());
+    // into_iter() used directly as a parser: the value is dropped, the extent is the inner parser's
+    cmp!("into_iter() bare", rep().collect::<Vec<char>>().into_iter().to_slice(), &s[..run.len()]);
+    Ok(())
+}
+
 pub fn decode(tape: &[u32]) -> (G, Vec<char>, &'static str) {
     let mut t = Tape::new(tape);
     let sub = if t.chance(1, 5) { "slice" } else { "str" };
@@ -201,6 +285,15 @@ pub fn run(tier: Tier, seed: u64) -> i32 {
     ctx.par_jobs(&ge, |g, l| {
         for s in &strings_e {
             check_inner("empty-interval", g, s, l)?;
+        }
+        Ok(())
+    });
+    // every Container implementation against the Vec collection, every short string
+    let cstrings: Vec<String> = all_strings(&['a', 'b', 'c', ',', 'x'], ctx.pick(5, 6)).into_iter().map(|v| v.into_iter().collect()).collect();
+    let cchunks: Vec<&[String]> = cstrings.chunks(64).collect();
+    ctx.par_jobs(&cchunks, |ch, l| {
+        for s in ch.iter() {
+            containers_case(s, l)?;
         }
         Ok(())
     });
